@@ -403,7 +403,8 @@ class Gen:
                     cands.append(((i << 8) | aid, g - 1))
             if livs:
                 i, g = self.rng.choice(livs)
-                cands.append(((i << 8) | aid, g + 1))             # live slot, future generation
+                if g + 1 <= 0xFFFFFFFF:                              # (a raw pair is two u32: after a preset g may be the largest one)
+                    cands.append(((i << 8) | aid, g + 1))         # live slot, future generation
                 cands.append(((i << 8) | aid, g))                 # bit-identical to a live handle
                 other = self.rng.choice(self.w.ids)
                 cands.append(((i << 8) | other, g))               # same slot and generation, other archetype id
